@@ -342,7 +342,8 @@ func c07ErrOwner(c *Ctx) {
 					}
 					n++
 					name := c.fn(fn)
-					isCallback := ix.Within(fn, func(f *ssa.Function) bool { return callbacks[f] })
+					// the callback, IsFailure, and helpers only they reach (isExceeded(err), exceededResult())
+					isCallback := ix.Within(fn, func(f *ssa.Function) bool { return callbacks[f] || (f.Name() == "IsFailure" && f.Pkg == fn.Pkg) })
 					if !(isCallback || fn.Name() == "IsFailure" || fn.Name() == "init") {
 						ok = false
 						c.Fail(name, c.P.Pos(in.Pos()), "timeout.ErrExceeded is referenced outside the timer callback and IsFailure: it could be produced before the limit elapsed", "")
@@ -578,7 +579,7 @@ func c09Loop(c *Ctx) {
 			more := p.State.Facts.Truth(ts, ts.Cmp("<", ts.LinConst(int64(k), intT), maxHedges))
 			switch more {
 			case triT:
-				if tim == nil || df == nil || tc < 0 || tim.Args[0] != df.Res[0] || df.Idx < g.Idx || len(sel.Cases) != 2 {
+				if tim == nil || df == nil || tc < 0 || !sameDelay(tim.Args[0], df.Res[0]) || df.Idx < g.Idx || len(sel.Cases) != 2 {
 					fail(p, sel, fmt.Sprintf("while hedges remain (attempt #%d < maxHedges) the wait must also select on a timer whose duration is the delay function's value computed for this wait", k))
 					bad = true
 				} else if len(df.Args) != 1 || !copyOf(p, df.Args[0], exec, nil) {
